@@ -9,6 +9,7 @@ From V Require Import Model.Anchor.
 From V Require Import Model.Ast Model.Footnotes Spec.FootnoteSpec.
 From V Require Import Model.FrontMatter Spec.FrontMatterSpec.
 From V Require Import Model.Arena.
+From V Require Import Gen.FeedConst Model.Feed Spec.LineEndings.
 Extraction Language OCaml.
 Set Extraction KeepSingleton.
 
@@ -76,4 +77,22 @@ Extraction "model.ml"
   Arena.heap_of_dump
   Arena.wf_b
   Arena.acyclic_b
+  Feed.feed_lines_res
+  Feed.norm_line
+  Feed.seen_lines
+  Feed.bom_offset
+  Feed.max_ref_size
+  LineEndings.to_crlf
+  LineEndings.to_cr
+  LineEndings.add_final_nl
+  LineEndings.nul_to_fffd
+  LineEndings.prepend_bom
+  LineEndings.no_cr
+  LineEndings.ends_nl
+  LineEndings.has_bom
+  LineEndings.spec_lines
+  LineEndings.clean_line
+  LineEndings.known_bom_on_bom
+  LineEndings.known_above_floor
+  FeedConst.ref_budget_floor
 .
